@@ -426,7 +426,14 @@ class DslMixin:
             with self.scope({lam.params[0]: arg_value}, lam.env):
                 body = self.truthy(self.ev(lam.body))
             facts = list(facts)
-        hyps = ([guard] if guard is not None else []) + facts
+        if facts:
+            # type facts about the terms under the binder hold for every value of the bound variable in the
+            # domain: they are asserted on their own (never as antecedents, which a hypothesis could not use)
+            fb = z3.And(*facts)
+            fq = z3.Implies(guard, fb) if guard is not None else fb
+            fp = auto_patterns([var], fq)
+            self.side_fact(z3.ForAll([var], fq, patterns=fp) if fp else z3.ForAll([var], fq))
+        hyps = [guard] if guard is not None else []
         if kind == "forall":
             f = z3.Implies(z3.And(*hyps), body) if hyps else body
         else:
@@ -555,7 +562,10 @@ class DslMixin:
 
     def _eval_in(self, env, cells, node):
         saved_env, saved_cells, saved_moved, saved_dead = self.st.env, self.st.cells, self.st.moved, self.st.dead_refs
-        self.st.env, self.st.cells, self.st.moved, self.st.dead_refs = dict(env), dict(cells), {}, set()
+        # snapshot names take precedence; quantifier-bound variables of the enclosing spec stay visible
+        merged = {k: v for k, v in saved_env.items() if isinstance(v, SV) and v.ref is None}
+        merged.update(env)
+        self.st.env, self.st.cells, self.st.moved, self.st.dead_refs = merged, dict(cells), {}, set()
         try:
             v = self.ev(node)
             if isinstance(v, SV):
